@@ -138,6 +138,11 @@ def c11_gen_text():
                 extra = [ast.literal_eval(e) for e in sets[0].elts]
     if extra is None:
         raise ExtractError("API.build: invalid_module_names not found")
+    san = [n for n in ast.walk(build) if isinstance(n, ast.FunctionDef) and n.name == "disambiguate_keyword_sanitize_fname"]
+    if len(san) != 1:
+        raise ExtractError("API.build: disambiguate_keyword_sanitize_fname not found")
+    sanitize_consts = string_constants(san[0])
+    sanitize_tests = [ast.unparse(n.test) for n in ast.walk(san[0]) if isinstance(n, ast.If)]
     # the file_to_generate test of API.build: <x>.package.startswith(package)
     ftg = [ast.unparse(k.value) for n in ast.walk(build) if isinstance(n, ast.Call) for k in n.keywords if k.arg == "file_to_generate"]
     ob = find_function("gapic/utils/options.py", "Options.build")
@@ -171,6 +176,8 @@ def c11_gen_text():
              f"Definition kwlist : list string := {coq.slist(interpreter_kwlist())}.",
              f"Definition sample_template_name : string := {coq.s(sample_name)}.",
              f"Definition invalid_module_extra : list string := {coq.slist(sorted(extra))}.",
+             f"Definition sanitize_consts : list string := {coq.slist(sanitize_consts)}.",
+             f"Definition sanitize_tests : list string := {coq.slist(sanitize_tests)}.",
              f"Definition file_to_generate_exprs : list string := {coq.slist(ftg)}.",
              f"Definition in_package_src : string := {coq.s(in_package_src)}.",
              f"Definition subpackage_elts : list string := {coq.slist(subp_elts)}."]
